@@ -20,33 +20,65 @@ from harness.vlib import coq_str, coq_z
 # ---------------------------------------------------------------------------
 # class specifications
 # ---------------------------------------------------------------------------
-# field spec: {"name", "meta": str|None, "ann": None | [("alias", s) | ("other",)], "cfg": str|None,
-#              "dflt": bool, "ty": "int"|"any"}
-# class spec: {"fields": [...], "allow": bool, "forbid": bool, "discr": None | ("field", s) | ("nofield",),
-#              "mixin": bool,
-#              "noninit": [{"name", "meta", "cfg"}]   members declared field(init=False): from_dict does not read them
-#              "classvar": [name]}                     ClassVar members: not fields at all
+# declaration: {"name", "meta": str|None, "ann": None | [("alias", s) | ("other",)], "init": bool,
+#               "dflt": None | "int" | "none", "ty": "int"|"any"|"optint", "mo": bool}
+# level:       {"cls": "A"|"B"|"K", "decls": [declaration...],
+#               "config": None | {"aliases": {name: alias}, "allow": bool, "forbid": bool}}
+# class spec:  {"levels": [level...]  (base-most first, K last), "classvar": [name] (ClassVar members of K),
+#               "discr": None | ("field", s) | ("nofield",)  (Config discriminator of a common parent `Base`),
+#               "mixin": bool}
 
-DEFAULT = -1          # default value of defaulted fields; never used as an input value
+DEFAULT = -1          # int default of defaulted fields; never used as an input value
+NONE_CODE = -7        # how the Python value None crosses to Coq (values are opaque to the model)
 NAMES = ["x", "y", "z"]
 TAG = "k"
 
 
-def cfg_aliases(spec) -> dict:
-    out = {f["name"]: f["cfg"] for f in spec["fields"] if f["cfg"] is not None}
-    out.update({f["name"]: f["cfg"] for f in spec.get("noninit", []) if f["cfg"] is not None})
-    return out
+def norm_spec(spec):
+    """After a JSON round trip: tuples back."""
+    for lv in spec["levels"]:
+        for f in lv["decls"]:
+            if f["ann"] is not None:
+                f["ann"] = [tuple(a) for a in f["ann"]]
+    if spec["discr"] is not None:
+        spec["discr"] = tuple(spec["discr"])
+    return spec
 
 
 def member_names(spec) -> list:
-    return ([f["name"] for f in spec["fields"]] + [f["name"] for f in spec.get("noninit", [])]
-            + list(spec.get("classvar", [])))
+    out = []
+    for lv in spec["levels"]:
+        out += [f["name"] for f in lv["decls"]]
+    return out + list(spec.get("classvar", []))
+
+
+def decl_source(f) -> str:
+    ty = {"int": "int", "any": "Any", "optint": "Optional[int]"}[f["ty"]]
+    if f["ann"] is not None:
+        items = ", ".join(f"Alias({a[1]!r})" if a[0] == "alias" else "'other'" for a in f["ann"])
+        ty = f"Annotated[{ty}, {items}]"
+    args = []
+    if not f["init"]:
+        args.append("init=False")
+    if f["dflt"] == "int":
+        args.append(f"default={DEFAULT}")
+    elif f["dflt"] == "none":
+        args.append("default=None")
+    md = {}
+    if f.get("mo"):
+        md["description"] = "other metadata"
+    if f["meta"] is not None:
+        md["alias"] = f["meta"]
+    if md:
+        args.append(f"metadata={md!r}")
+    rhs = f" = field({', '.join(args)})" if args else ""
+    return f"    {f['name']}: {ty}{rhs}"
 
 
 def class_source(spec) -> str:
-    """Self-contained Python source defining class K (and Base when a discriminator is used)."""
+    """Self-contained Python source: [Base with the Config discriminator,] the ancestors A, B and the class K."""
     L = ["from dataclasses import dataclass, field",
-         "from typing import Any, ClassVar",
+         "from typing import Any, ClassVar, Optional",
          "from typing_extensions import Annotated",
          "from mashumaro import DataClassDictMixin",
          "from mashumaro.config import BaseConfig",
@@ -63,42 +95,35 @@ def class_source(spec) -> str:
             L.append("        discriminator = Discriminator(include_subtypes=True)")
         L.append("")
         base = "Base"
-    L.append("@dataclass")
-    L.append(f"class K({base}):" if base else "class K:")
-    if spec["discr"] is not None and spec["discr"][0] == "field":
-        fld = spec["discr"][1]
-        if fld.isidentifier() and not keyword.iskeyword(fld) and fld not in member_names(spec):
-            L.append(f"    {fld}: ClassVar[str] = {TAG!r}")
-    # fields without default first (dataclass rule)
-    for f in spec["fields"]:
-        ty = "int" if f["ty"] == "int" else "Any"
-        if f["ann"] is not None:
-            items = ", ".join(f"Alias({a[1]!r})" if a[0] == "alias" else "'other'" for a in f["ann"])
-            ty = f"Annotated[{ty}, {items}]"
-        args = []
-        if f["dflt"]:
-            args.append(f"default={DEFAULT}")
-        md = {}
-        if f.get("mo"):
-            md["description"] = "other metadata"
-        if f["meta"] is not None:
-            md["alias"] = f["meta"]
-        if md:
-            args.append(f"metadata={md!r}")
-        rhs = f" = field({', '.join(args)})" if args else ""
-        L.append(f"    {f['name']}: {ty}{rhs}")
-    for f in spec.get("noninit", []):
-        md = f", metadata={{'alias': {f['meta']!r}}}" if f["meta"] is not None else ""
-        L.append(f"    {f['name']}: int = field(init=False, default=0{md})")
-    for n in spec.get("classvar", []):
-        L.append(f"    {n}: ClassVar[int] = 3")
-    L.append("    class Config(BaseConfig):")
-    L.append(f"        aliases = {cfg_aliases(spec)!r}")
-    L.append(f"        allow_deserialization_not_by_alias = {spec['allow']!r}")
-    L.append(f"        forbid_extra_keys = {spec['forbid']!r}")
-    if not spec["fields"]:
-        L.append("    pass")
-    return "\n".join(L) + "\n"
+    for lv in spec["levels"]:
+        L.append("@dataclass")
+        L.append(f"class {lv['cls']}({base}):" if base else f"class {lv['cls']}:")
+        body = 0
+        if lv["cls"] == "K":
+            if spec["discr"] is not None and spec["discr"][0] == "field":
+                fld = spec["discr"][1]
+                if fld.isidentifier() and not keyword.iskeyword(fld) and fld not in member_names(spec):
+                    L.append(f"    {fld}: ClassVar[str] = {TAG!r}")
+                    body += 1
+        for f in lv["decls"]:
+            L.append(decl_source(f))
+            body += 1
+        if lv["cls"] == "K":
+            for n in spec.get("classvar", []):
+                L.append(f"    {n}: ClassVar[int] = 3")
+                body += 1
+        if lv["config"] is not None:
+            c = lv["config"]
+            L.append("    class Config(BaseConfig):")
+            L.append(f"        aliases = {c['aliases']!r}")
+            L.append(f"        allow_deserialization_not_by_alias = {c['allow']!r}")
+            L.append(f"        forbid_extra_keys = {c['forbid']!r}")
+            body += 1
+        if not body:
+            L.append("    pass")
+        L.append("")
+        base = lv["cls"]
+    return "\n".join(L)
 
 
 _modn = [0]
@@ -109,10 +134,7 @@ def build_class(src: str):
     name = f"c09_case_{_modn[0]}"
     mod = types.ModuleType(name)
     sys.modules[name] = mod
-    try:
-        exec(src, mod.__dict__)
-    finally:
-        pass
+    exec(src, mod.__dict__)
     return mod
 
 
@@ -121,11 +143,84 @@ def drop_module(mod):
 
 
 # ---------------------------------------------------------------------------
+# the oracle: KEYMODEL written from the property text + dataclass semantics (independent of builder.py)
+# ---------------------------------------------------------------------------
+
+def o_fields(spec) -> list:
+    """The init fields K has, by dataclass semantics: collected base-most class first; a re-declaration replaces
+    the inherited one in place (dict insertion order); init=False members are not constructor parameters."""
+    seen = {}
+    for lv in spec["levels"]:
+        for f in lv["decls"]:
+            seen[f["name"]] = f
+    return [f for f in seen.values() if f["init"]]
+
+
+def o_config(spec) -> dict:
+    """Config is a plain class attribute: the nearest class that defines one supplies every option."""
+    for lv in reversed(spec["levels"]):
+        if lv["config"] is not None:
+            return lv["config"]
+    return {"aliases": {}, "allow": False, "forbid": False}
+
+
+def o_alias(spec, f):
+    """alias: field metadata over an Annotated Alias over Config.aliases; None if the field has none."""
+    if f["meta"] is not None:
+        return f["meta"]
+    if f["ann"] is not None:
+        al = [a[1] for a in f["ann"] if a[0] == "alias"]
+        if al:
+            return al[-1]          # several Alias annotations: the outermost / last one
+    return o_config(spec)["aliases"].get(f["name"])
+
+
+def o_candidates(spec, f):
+    a = o_alias(spec, f)
+    if a is None:
+        return [f["name"]]
+    return [a, f["name"]] if o_config(spec)["allow"] else [a]
+
+
+def o_accepted(spec):
+    acc = set()
+    for f in o_fields(spec):
+        acc.update(o_candidates(spec, f))
+    # a Discriminator whose field is None or "" is one without field everywhere in the library: no key to accept
+    if spec["discr"] is not None and spec["discr"][0] == "field" and spec["discr"][1] != "":
+        acc.add(spec["discr"][1])
+    return acc
+
+
+def o_default(f):
+    return {"int": DEFAULT, "none": None}[f["dflt"]]
+
+
+def o_keymodel(spec, d: dict):
+    """("inst", [(field, value)]) | ("missing", field) | ("extra", [keys in input order])"""
+    acc = o_accepted(spec)
+    extra = [k for k in d if k not in acc]
+    if o_config(spec)["forbid"] and extra:
+        return ("extra", extra)
+    vals = []
+    for f in o_fields(spec):
+        for k in o_candidates(spec, f):
+            if k in d:
+                vals.append((f["name"], d[k]))       # the first present candidate, whatever its value (also None)
+                break
+        else:
+            if f["dflt"] is None:
+                return ("missing", f["name"])
+            vals.append((f["name"], o_default(f)))
+    return ("inst", vals)
+
+
+# ---------------------------------------------------------------------------
 # running the real implementation
 # ---------------------------------------------------------------------------
 
 def observe(spec, call, d: dict):
-    """Canonical outcome of call(d): ("inst", [(fname, None | (key, value))]) | ("missing", fname)
+    """Canonical outcome of call(d): ("inst", [(fname, value)]) | ("missing", fname)
     | ("extra", [keys in input order]) | ("exc", text)."""
     from mashumaro.exceptions import ExtraKeysError, MissingField
     try:
@@ -143,21 +238,17 @@ def observe(spec, call, d: dict):
         return ("missing", e.field_name)
     except Exception as e:  # anything else is never expected here
         return ("exc", f"{type(e).__name__}: {e}")
+    if type(obj).__name__ != "K":
+        return ("exc", f"result is a {type(obj).__name__}")
     vals = []
-    byval = {v: k for k, v in d.items() if type(v) is int}
-    for f in spec["fields"]:
+    for f in o_fields(spec):
         try:
             v = getattr(obj, f["name"])
         except AttributeError:
             return ("exc", f"attribute {f['name']} missing on the result")
-        if v == DEFAULT and f["dflt"] and not isinstance(v, bool):
-            vals.append((f["name"], None))
-        elif type(v) is int and v in byval:
-            vals.append((f["name"], (byval[v], v)))
-        else:
-            return ("exc", f"field {f['name']} holds {v!r} which is no input value")
-    if type(obj).__name__ != "K":
-        return ("exc", f"result is a {type(obj).__name__}")
+        if not (v is None or type(v) is int):
+            return ("exc", f"field {f['name']} holds {v!r}")
+        vals.append((f["name"], v))
     return ("inst", vals)
 
 
@@ -178,63 +269,13 @@ def entries(spec, mod):
 
 def tag_dispatch_ok(spec) -> bool:
     """The parent's discriminator field is a class attribute of K (declared by class_source) and no field can
-    be read from that key (the tag value is a string, not one of the distinct ints)."""
+    be read from that key (the tag value is a string, not an int / None)."""
     if spec["discr"] is None or spec["discr"][0] != "field":
         return False
     fld = spec["discr"][1]
     if not (fld.isidentifier() and not keyword.iskeyword(fld)) or fld in member_names(spec):
         return False
-    return all(fld not in o_candidates(spec, f) and fld != (o_alias(spec, f) or "") for f in spec["fields"])
-
-
-# ---------------------------------------------------------------------------
-# the oracle: KEYMODEL written from the property text (independent of builder.py)
-# ---------------------------------------------------------------------------
-
-def o_alias(spec, f):
-    """alias: field metadata over an Annotated Alias over Config.aliases; None if the field has none."""
-    if f["meta"] is not None:
-        return f["meta"]
-    if f["ann"] is not None:
-        al = [a[1] for a in f["ann"] if a[0] == "alias"]
-        if al:
-            return al[-1]          # several Alias annotations: the outermost / last one
-    return cfg_aliases(spec).get(f["name"])
-
-
-def o_candidates(spec, f):
-    a = o_alias(spec, f)
-    if a is None:
-        return [f["name"]]
-    return [a, f["name"]] if spec["allow"] else [a]
-
-
-def o_accepted(spec):
-    acc = set()
-    for f in spec["fields"]:
-        acc.update(o_candidates(spec, f))
-    # a Discriminator whose field is None or "" is one without field everywhere in the library: no key to accept
-    if spec["discr"] is not None and spec["discr"][0] == "field" and spec["discr"][1] != "":
-        acc.add(spec["discr"][1])
-    return acc
-
-
-def o_keymodel(spec, d: dict):
-    acc = o_accepted(spec)
-    extra = [k for k in d if k not in acc]
-    if spec["forbid"] and extra:
-        return ("extra", extra)
-    vals = []
-    for f in spec["fields"]:
-        got = None
-        for k in o_candidates(spec, f):
-            if k in d:
-                got = (k, d[k])
-                break
-        if got is None and not f["dflt"]:
-            return ("missing", f["name"])
-        vals.append((f["name"], got))
-    return ("inst", vals)
+    return all(fld not in o_candidates(spec, f) for f in o_fields(spec))
 
 
 # ---------------------------------------------------------------------------
@@ -254,82 +295,132 @@ def gen_spec(rng, force=None):
         discr = ("field", rng.choice(["kind", "kind", "kind", "type", "type", "y", "y", "None", "None", "w", ""]))
     elif r < 0.36:
         discr = ("nofield",)
-    fields = []
     pool_common = ["s1", "s2"]           # aliases several fields may share
-    for i, n in enumerate(names):
-        def pick(tag):
-            r = rng.random()
-            if r < 0.52:
-                return f"{tag}_{n}"
-            if r < 0.66:
-                return rng.choice([m for m in NAMES if m != n])      # shadowed alias: another field's name
-            if r < 0.76:
-                return rng.choice(pool_common)
-            if r < 0.82:
-                return n                                             # alias equal to the own name
-            if r < 0.88:
-                return rng.choice(["None", "alias", "kind"])
-            if r < 0.93:
-                return ""
-            return rng.choice(["it's", "a b", "A", "é"])
+
+    def pick(tag, n):
+        r = rng.random()
+        if r < 0.52:
+            return f"{tag}_{n}"
+        if r < 0.66:
+            return rng.choice([m for m in NAMES if m != n])      # shadowed alias: another field's name
+        if r < 0.76:
+            return rng.choice(pool_common)
+        if r < 0.82:
+            return n                                             # alias equal to the own name
+        if r < 0.88:
+            return rng.choice(["None", "alias", "kind"])
+        if r < 0.93:
+            return ""
+        return rng.choice(["it's", "a b", "A", "é"])
+
+    def sources(n, tag=""):
+        """(meta, ann, cfg alias) for one declaration: any combination of the three sources"""
         combo = rng.randrange(8)
-        meta = pick("m") if combo & 1 else None
-        cfg = pick("c") if combo & 4 else None
+        meta = pick("m" + tag, n) if combo & 1 else None
+        cfg = pick("c" + tag, n) if combo & 4 else None
         ann = None
         if combo & 2:
             shape = rng.choice(["a", "ao", "oa", "aa", "aoa", "aa", "a"])
-            ann = []
-            for j, ch in enumerate(shape):
-                ann.append(("alias", pick(f"a{j}")) if ch == "a" else ("other",))
+            ann = [("alias", pick(f"a{j}{tag}", n)) if ch == "a" else ("other",) for j, ch in enumerate(shape)]
         elif rng.random() < 0.2:
-            ann = [("other",)]                                        # Annotated without Alias
-        fields.append({"name": n, "meta": meta, "ann": ann, "cfg": cfg, "dflt": False,
-                       "ty": rng.choice(["int", "any"]), "mo": rng.random() < 0.25})
-    # defaults: a suffix of the fields (dataclass rule: no non-default after default)
-    k = rng.randrange(nf + 1) if nf else 0
-    for f in fields[nf - k:] if k else []:
-        f["dflt"] = True
-    # members that are not read by from_dict: field(init=False) (possibly with aliases of their own) and ClassVar
-    noninit, classvar = [], []
+            ann = [("other",)]                                    # Annotated without Alias
+        return meta, ann, cfg
+
+    # values None are legal everywhere only if every field accepts None
+    nullable = rng.random() < 0.4
+    # the declarations K finally sees
+    final, cfg_aliases = [], {}
+    for n in names:
+        meta, ann, cfg = sources(n)
+        if cfg is not None:
+            cfg_aliases[n] = cfg
+        final.append({"name": n, "meta": meta, "ann": ann, "init": True, "dflt": None,
+                      "ty": rng.choice(["any", "optint"]) if nullable else rng.choice(["int", "any"]),
+                      "mo": rng.random() < 0.25})
+    k = rng.randrange(nf + 1) if nf else 0          # defaults: a suffix (no non-default after default)
+    for f in (final[nf - k:] if k else []):
+        f["dflt"] = rng.choice(["int", "none"]) if f["ty"] != "int" else "int"
+
+    # hierarchy: K alone, A -> K, or A -> B -> K
+    depth = force.get("depth", rng.choice([1, 1, 2, 2, 3, 3]))
+    cls_names = {1: ["K"], 2: ["A", "K"], 3: ["A", "B", "K"]}[depth]
+    levels = [{"cls": c, "decls": [], "config": None} for c in cls_names]
+    firsts = sorted(rng.randrange(depth) for _ in names)          # fields of the bases come first
+    decoy_cfg_aliases = {}
+    for f, first in zip(final, firsts):
+        where = [first] + [j for j in range(first + 1, depth) if rng.random() < 0.45]
+        for j in where[:-1]:
+            # a declaration that is shadowed by a nearer one: other alias sources, same type/default shape
+            meta, ann, cfg = sources(f["name"], tag=cls_names[j])
+            levels[j]["decls"].append(dict(f, meta=meta, ann=ann, mo=rng.random() < 0.25))
+            if cfg is not None:
+                decoy_cfg_aliases[f["name"]] = cfg
+        levels[where[-1]]["decls"].append(f)
+        # sometimes a nearer class turns the field into a non-init member: from_dict does not read it any more
+        if where[-1] < depth - 1 and rng.random() < 0.12:
+            levels[rng.randrange(where[-1] + 1, depth)]["decls"].append(
+                dict(f, init=False, dflt="int" if f["dflt"] is None else f["dflt"]))
+    # members that are never read: field(init=False) (possibly with aliases of their own), ClassVar
+    classvar = []
     if rng.random() < 0.45:
         for n in rng.sample(["w", "v"], rng.choice([1, 1, 2])):
-            noninit.append({"name": n, "meta": rng.choice([None, None, f"m_{n}", "s1"]),
-                            "cfg": rng.choice([None, None, f"c_{n}", "s2"])})
+            levels[rng.randrange(depth)]["decls"].append(
+                {"name": n, "meta": rng.choice([None, None, f"m_{n}", "s1"]), "ann": None, "init": False,
+                 "dflt": "int", "ty": "int", "mo": False})
+            c = rng.choice([None, None, f"c_{n}", "s2"])
+            if c is not None:
+                cfg_aliases[n] = c
     if rng.random() < 0.2:
         classvar.append("u")
-    spec = {"fields": fields, "allow": rng.random() < 0.5, "forbid": rng.random() < 0.5, "discr": discr,
-            "mixin": rng.random() < 0.6, "noninit": noninit, "classvar": classvar}
-    spec.update({k: v for k, v in force.items() if k in ("allow", "forbid", "mixin")})
-    return spec
+    # the Config K sees sits in K or in an ancestor; a farther ancestor may define another one (shadowed)
+    allow = force.get("allow", rng.random() < 0.5)
+    forbid = force.get("forbid", rng.random() < 0.5)
+    cl = rng.randrange(depth) if rng.random() < 0.5 else depth - 1
+    levels[cl]["config"] = {"aliases": cfg_aliases, "allow": allow, "forbid": forbid}
+    if cl > 0 and rng.random() < 0.5:
+        levels[rng.randrange(cl)]["config"] = {"aliases": decoy_cfg_aliases, "allow": not allow,
+                                               "forbid": rng.random() < 0.5}
+    return {"levels": levels, "classvar": classvar, "discr": discr,
+            "mixin": force.get("mixin", rng.random() < 0.6)}
+
+
+def all_alias_strings(spec) -> list:
+    """every alias string written anywhere in the source (winning or not)"""
+    out = []
+    for lv in spec["levels"]:
+        for f in lv["decls"]:
+            out += [f["meta"]] + [x[1] for x in (f["ann"] or []) if x[0] == "alias"]
+        if lv["config"] is not None:
+            out += list(lv["config"]["aliases"].values())
+    return [a for a in out if a is not None]
 
 
 def candidate_keys(spec, rng, limit=8):
-    names = [f["name"] for f in spec["fields"]]
-    eff = [o_alias(spec, f) for f in spec["fields"] if o_alias(spec, f) is not None]
-    losing = []
-    for f in spec["fields"]:
-        for a in [f["meta"], f["cfg"]] + [x[1] for x in (f["ann"] or []) if x[0] == "alias"]:
-            if a is not None:
-                losing.append(a)
+    fields = o_fields(spec)
+    names = [f["name"] for f in fields]
+    eff = [o_alias(spec, f) for f in fields if o_alias(spec, f) is not None]
     must = []
     for k in names + eff:
         if k not in must:
             must.append(k)
-    opt = []
-    for k in losing + ([spec["discr"][1]] if spec["discr"] and spec["discr"][0] == "field" else []):
-        if k not in must and k not in opt:
-            opt.append(k)
-    strangers = [s for s in STRANGERS if s not in must and s not in opt]
+    # names of members from_dict does not read (init=False, ClassVar)
+    dead = [n for n in member_names(spec) if n not in must]
+    dead = [k for i, k in enumerate(dead) if k not in dead[:i]]
+    losing = [a for a in all_alias_strings(spec) if a not in must and a not in dead]
+    losing = [k for i, k in enumerate(losing) if k not in losing[:i]]
+    if spec["discr"] and spec["discr"][0] == "field" and spec["discr"][1] not in must + dead + losing:
+        losing.append(spec["discr"][1])
+    strangers = [s for s in STRANGERS if s not in must and s not in dead and s not in losing]
     rng.shuffle(strangers)
-    rng.shuffle(opt)
+    rng.shuffle(losing)
+    rng.shuffle(dead)
     out = list(must)[:limit]
-    dead = [f["name"] for f in spec.get("noninit", [])] + list(spec.get("classvar", []))
-    dead_al = [a for f in spec.get("noninit", []) for a in (f["meta"], f["cfg"]) if a is not None]
-    dead = [k for i, k in enumerate(dead + dead_al) if k not in must and k not in (dead + dead_al)[:i]]
-    opt = [k for k in opt if k not in dead]
-    strangers = [k for k in strangers if k not in dead]
-    # names (and aliases) of members from_dict does not read, one stranger, the losing alias strings, more strangers
-    rest = dead[:2] + strangers[:1] + dead[2:] + opt + strangers[1:]
+    rest = []
+    pools = [dead, losing, strangers]          # interleave: a not-read member name, a losing alias, a stranger, ...
+    while any(pools):
+        for p_ in pools:
+            if p_:
+                rest.append(p_.pop(0))
     for k in rest:
         if len(out) >= limit:
             break
@@ -338,7 +429,7 @@ def candidate_keys(spec, rng, limit=8):
 
 
 def subsets(keys, rng, n_max):
-    """All subsets if there are at most n_max, else the empty one, the full one and a sample."""
+    """All subsets if there are at most n_max, else the empty one, the full one, the singletons and a sample."""
     total = 1 << len(keys)
     if total <= n_max:
         masks = list(range(total))
@@ -350,14 +441,31 @@ def subsets(keys, rng, n_max):
             masks.add(rng.randrange(total))
         masks = sorted(masks)
     for m in masks:
-        ks = [k for i, k in enumerate(keys) if m >> i & 1]
-        yield ks
+        yield [k for i, k in enumerate(keys) if m >> i & 1]
 
 
-def make_dict(ks, keys, rng):
+def nullable_class(spec) -> bool:
+    return all(f["ty"] != "int" for f in o_fields(spec))
+
+
+def make_dict(ks, keys, rng, p_none=0.0):
     ks = list(ks)
     rng.shuffle(ks)
-    return {k: 100 + keys.index(k) for k in ks}
+    return {k: (None if rng.random() < p_none else 100 + keys.index(k)) for k in ks}
+
+
+def boundary_dicts(spec):
+    """For every field with two candidate keys: both present, with each value pattern (the value None is a
+    value like any other: presence of the key decides, not its value)."""
+    out = []
+    pats = [(1, 2)] + ([(None, 2), (1, None), (None, None)] if nullable_class(spec) else [])
+    for f in o_fields(spec):
+        c = o_candidates(spec, f)
+        if len(c) == 2 and c[0] != c[1]:
+            for a, b in pats:
+                out.append({c[0]: a, c[1]: b})
+                out.append({c[1]: b, c[0]: a})
+    return out
 
 
 # ---------------------------------------------------------------------------
@@ -368,22 +476,46 @@ def c_ostr(s):
     return "None" if s is None else f"(Some {coq_str(s)})"
 
 
-def c_spec(spec) -> str:
-    fs = []
-    for f in spec["fields"]:
-        if f["ann"] is None:
-            ann = "None"
-        else:
-            ann = "(Some [" + "; ".join(f"AAlias {coq_str(a[1])}" if a[0] == "alias" else "AOther" for a in f["ann"]) + "])"
-        fs.append(f"mkF {coq_str(f['name'])} {c_ostr(f['meta'])} {ann} {vlib.coq_bool(f['dflt'])}")
-    al = "; ".join(f"({coq_str(k)}, {coq_str(v)})" for k, v in cfg_aliases(spec).items())
-    if spec["discr"] is None:
-        dk = "None"
-    elif spec["discr"][0] == "field":
-        dk = f"(Some (Some {coq_str(spec['discr'][1])}))"
+def c_fld(f) -> str:
+    if f["ann"] is None:
+        ann = "None"
     else:
-        dk = "(Some None)"
-    return f"(mkC [{'; '.join(fs)}] [{al}] {vlib.coq_bool(spec['allow'])} {vlib.coq_bool(spec['forbid'])} {dk})"
+        ann = "(Some [" + "; ".join(f"AAlias {coq_str(a[1])}" if a[0] == "alias" else "AOther" for a in f["ann"]) + "])"
+    return f"mkF {coq_str(f['name'])} {c_ostr(f['meta'])} {ann} {vlib.coq_bool(f['dflt'] is not None)}"
+
+
+def c_aliases(al: dict) -> str:
+    return "[" + "; ".join(f"({coq_str(k)}, {coq_str(v)})" for k, v in al.items()) + "]"
+
+
+def c_discr(spec) -> str:
+    if spec["discr"] is None:
+        return "None"
+    if spec["discr"][0] == "field":
+        return f"(Some (Some {coq_str(spec['discr'][1])}))"
+    return "(Some None)"
+
+
+def c_spec(spec) -> str:
+    """The hierarchy as written; flattening (nearest declaration, nearest Config, init filter) happens in Coq."""
+    lv_txt = []
+    for lv in spec["levels"]:
+        decls = "; ".join(f"({c_fld(f)}, {vlib.coq_bool(f['init'])})" for f in lv["decls"])
+        if lv["config"] is None:
+            cfg = "None"
+        else:
+            c = lv["config"]
+            cfg = f"(Some (mkCfg {c_aliases(c['aliases'])} {vlib.coq_bool(c['allow'])} {vlib.coq_bool(c['forbid'])}))"
+        lv_txt.append(f"mkL [{decls}] {cfg}")
+    return f"(class_of [{'; '.join(lv_txt)}] {c_discr(spec)})"
+
+
+def c_val(v) -> str:
+    return coq_z(NONE_CODE if v is None else v)
+
+
+def c_defaults(spec) -> str:
+    return "[" + "; ".join(c_val(o_default(f)) if f["dflt"] is not None else "0" for f in o_fields(spec)) + "]"
 
 
 def c_key(k) -> str:
@@ -395,24 +527,23 @@ def c_key(k) -> str:
 
 
 def c_dict(d) -> str:
-    return "[" + "; ".join(f"({c_key(k)}, {coq_z(v)})" for k, v in d.items()) + "]"
+    return "[" + "; ".join(f"({c_key(k)}, {c_val(v)})" for k, v in d.items()) + "]"
 
 
-def c_outcome(o) -> str:
+def c_obs(o) -> str:
     if o[0] == "inst":
-        items = []
-        for n, kv in o[1]:
-            items.append(f"({coq_str(n)}, " + ("None" if kv is None else f"Some ({c_key(kv[0])}, {coq_z(kv[1])})") + ")")
-        return "(OInst [" + "; ".join(items) + "])"
+        return "(VInst [" + "; ".join(f"({coq_str(n)}, {c_val(v)})" for n, v in o[1]) + "])"
     if o[0] == "missing":
-        return f"(OMissing {coq_str(o[1])})"
+        return f"(VMissing {coq_str(o[1])})"
     if o[0] == "extra":
-        return "(OExtra [" + "; ".join(c_key(k) for k in o[1]) + "])"
-    return '(OMissing "<unexpected exception>")'     # never equal to a model outcome (no such field name)
+        return "(VExtra [" + "; ".join(c_key(k) for k in o[1]) + "])"
+    return '(VMissing "<unexpected exception>")'     # never equal to a model outcome (no such field name)
 
 
+CASE_TYPE = "cls * list Z * dict * observation"
 
-def coq_check(name, model, items, ok_fun, ctx, shard=500):
+
+def coq_check(name, model, items, ok_fun, ctx, shard=500, ctype=CASE_TYPE):
     """Like vlib.coq_bad_idx, but every shard file carries only the class definitions its cases use.
     items: [(class index, definition text, case text)]."""
     imports, gen_imports, needs = model
@@ -428,7 +559,7 @@ def coq_check(name, model, items, ok_fun, ctx, shard=500):
                 seen.add(ci)
                 defs.append(dtxt)
         txt = vlib.CASE_HEADER.format(imports=imports, gen_imports=gen_imports) + "\n".join(defs) + "\n"
-        txt += "Definition cases : list (cls * dict * outcome * bool) :=\n  [" + ";\n   ".join(c for _, _, c in chunk) + "].\n"
+        txt += f"Definition cases : list ({ctype}) :=\n  [" + ";\n   ".join(c for _, _, c in chunk) + "].\n"
         txt += f"Eval vm_compute in (bad_idx ({ok_fun}) cases).\n"
         files.append((f"{name}_{si // shard}", txt))
     res = vlib.coq_eval_many(files, timeout=600, jobs=4 if ctx.quick() else 12)
@@ -474,21 +605,18 @@ def kernel_validation(ctx, rng):
             got = real(n, ftype, md, cfg)
         except Exception as e:
             got = f"<{type(e).__name__}>"
-        f = {"name": n, "meta": meta, "ann": ann, "cfg": None, "dflt": False, "ty": "int"}
-        spec = {"fields": [f], "allow": False, "forbid": False, "discr": None, "mixin": True}
-        cl = c_spec(spec).replace("[] false false None)", "[" + "; ".join(f"({coq_str(k)}, {coq_str(v)})" for k, v in al.items())
-                                  + "] false false None)")
-        items.append((i, f"Definition c{i} : cls := {cl}.",
-                      f"(c{i}, [], OMissing {coq_str('' if got is None else 'S' + got)}, {vlib.coq_bool(got is None)})"))
+        f = {"name": n, "meta": meta, "ann": ann, "dflt": None}
+        items.append((i, f"Definition c{i} : cls := mkC [{c_fld(f)}] {c_aliases(al)} false false None.",
+                      f"(c{i}, {coq_str('' if got is None else 'S' + got)}, {vlib.coq_bool(got is None)})"))
         shown.append((n, md, ann, al, got))
         ctx.count(("k4", i))
-    okf = ("fun c => match c with (cl, _, o, isnone) => match c_fields cl, o with "
-           "| [f], OMissing e => match impl_alias cl f with "
+    okf = ("fun c => match c with (cl, e, isnone) => match c_fields cl with "
+           "| [f] => match impl_alias cl f with "
            "  | Ok KNone => isnone | Ok (KStr s) => negb isnone && String.eqb (String \"S\" s) e | _ => false end "
            "  && (match alias_of cl f with None => isnone | Some s => negb isnone && String.eqb (String \"S\" s) e end) "
-           "| _, _ => false end end")
+           "| _ => false end end")
     bad, log = coq_check("c09_k4", ("KeyModel KeyImpl PyK_alias", "From VerifGen Require Import K4.", ["theories/KeyImpl.vo"]),
-                         items, okf, ctx)
+                         items, okf, ctx, ctype="cls * string * bool")
     name = "K4.get_field_alias-translation-vs-python"
     if bad is None:
         ctx.correspondence(name, len(items), -1, log)
@@ -502,7 +630,8 @@ def kernel_validation(ctx, rng):
 # the check
 # ---------------------------------------------------------------------------
 
-THEOREMS = ["K4_precedence", "K4_key_plan", "K4_allowed_keys", "C09_impl_is_code", "C09_keys",
+THEOREMS = ["K4_precedence", "K4_key_plan", "K4_allowed_keys", "C09_impl_is_code", "C09_keys", "C09_keys_hier",
+            "C09_nearest_declaration", "C09_nearest_config", "C09_fields_unique",
             "C09_field_key", "C09_outcome", "C09_alias_wins", "C09_fallback", "C09_accepted_covers_reads",
             "C09_reads_allowed", "C09_extra_members", "C09_extra_exact", "C09_ignored", "C09_forbidden_reported"]
 
@@ -525,13 +654,18 @@ def replay_of(spec, src, entry, d, obs, exp):
 
 def run(ctx: vlib.Ctx):
     ctx.coverage["rule"] = (
-        "class = 0..3 fields, each with any of the three alias sources (metadata / Annotated Alias list incl. several "
-        "Alias and non-Alias items / Config.aliases; alias strings fresh, shadowing another field's name, shared, own name, "
-        "'None', 'alias', the discriminator field, '' and non-identifier strings) x allow_deserialization_not_by_alias x "
-        "forbid_extra_keys x inherited Config discriminator (with/without field) x mixin/plain x optional init=False members "
-        "(with aliases of their own) and ClassVar members; input = subset of <= 8 candidate keys (names, winning and losing "
-        "aliases, names/aliases of the members that are not read, discriminator field, strangers incl. 'None', 'alias', '', None, 1), "
-        "every key bound to a distinct int; thorough: all subsets. distinct = (class spec, key subset)")
+        "class K = last of a hierarchy of 1..3 dataclasses (A -> B -> K) with 0..3 init fields; every field may be "
+        "re-declared in a nearer class with other alias sources (the nearest declaration counts), or turned into an "
+        "init=False member; the Config K sees may sit in an ancestor, with a shadowed Config farther up; each declaration "
+        "has any of the three alias sources (metadata / Annotated Alias list incl. several Alias and non-Alias items / "
+        "Config.aliases; alias strings fresh, shadowing another field's name, shared, own name, 'None', 'alias', the "
+        "discriminator field, '' and non-identifier strings) x allow_deserialization_not_by_alias x forbid_extra_keys x "
+        "Config discriminator of a common parent (with/without field) x mixin/plain x init=False and ClassVar members; "
+        "field types int / Any / Optional[int], defaults none / -1 / None; input = subset of <= 8 candidate keys (names, "
+        "winning, losing and shadowed aliases, names of members that are not read, discriminator field, strangers incl. "
+        "'None', 'alias', '', None, 1), every key bound to a distinct int or (classes whose fields all accept it) None, "
+        "plus for every field with two candidates both keys present with each int/None value pattern; thorough: all subsets. "
+        "distinct = (class spec, input, entry point)")
     ctx.trusted += [
         "tools/kernels/k4_alias.py: slicer that recognises the emitted `X = d.get(<key>, MISSING)` lines / `if X is MISSING:` "
         "guards of FieldUnpackerCodeBlockBuilder.build and the allowed_keys statements of _add_unpack_method_lines "
@@ -548,7 +682,8 @@ def run(ctx: vlib.Ctx):
         "C09_keys has no domain restriction; a Discriminator whose field is '' counts as one without field (as everywhere "
         "in the library)",
         "alias values are strings (Alias(None) / aliases={..: None} are outside the property's quantifier)",
-        "input keys are hashable scalars (str / None / int); values are irrelevant to key resolution (distinct ints used)",
+        "input keys are hashable scalars (str / None / int); values are ints or None and are opaque to the model (None "
+        "crosses to Coq as the reserved code -7); outcomes are compared at the level of what is observable: attribute values",
     ]
     br = ctx.theorems("props/C09_keys.vo", THEOREMS, kernels=["K4"])
     # every registered name must be a theorem of the props file with its own Print Assumptions, all closed
@@ -576,10 +711,10 @@ def run(ctx: vlib.Ctx):
     rng = ctx.rng
     if k4_ok:
         kernel_validation(ctx, rng)
-    n_classes = ctx.budget(260, 500)
+    n_classes = ctx.budget(200, 380)
     sub_max = ctx.budget(32, 256)
-    forced = [{"allow": a, "forbid": b, "mixin": m, "nf": nf} for a in (False, True) for b in (False, True)
-              for m in (False, True) for nf in (1, 2)]
+    forced = [{"allow": a, "forbid": b, "mixin": m, "nf": nf, "depth": dp} for a in (False, True) for b in (False, True)
+              for m in (False, True) for nf, dp in ((1, 1), (2, 3))]
     cases = []          # (spec, src, entry, d, obs)
     coq_defs = []
     coq_cases = []
@@ -605,58 +740,70 @@ def run(ctx: vlib.Ctx):
             drop_module(mod)
             continue
         keys = candidate_keys(spec, rng)
+        fields = o_fields(spec)
+        cfgv = o_config(spec)
         ctx.hist("alias_sources", "|".join(
             "".join(t for t, on in (("m", f["meta"] is not None), ("a", bool(f["ann"]) and any(x[0] == "alias" for x in f["ann"])),
-                                    ("c", f["cfg"] is not None)) if on) or "-" for f in spec["fields"]) or "(no fields)")
-        ctx.hist("options", f"allow={int(spec['allow'])} forbid={int(spec['forbid'])} "
+                                    ("c", f["name"] in cfgv["aliases"])) if on) or "-" for f in fields) or "(no fields)")
+        ctx.hist("options", f"allow={int(cfgv['allow'])} forbid={int(cfgv['forbid'])} "
                             f"discr={'-' if spec['discr'] is None else spec['discr'][0]} {'mixin' if spec['mixin'] else 'plain'}")
-        ctx.hist("empty_alias", "some field's resolved alias is ''" if any(o_alias(spec, f) == "" for f in spec["fields"])
-                 else "none")
-        ctx.hist("non_init_members", f"init=False:{len(spec['noninit'])} ClassVar:{len(spec['classvar'])}")
+        ctx.hist("empty_alias", "some field's resolved alias is ''" if any(o_alias(spec, f) == "" for f in fields) else "none")
+        n_decl = {}
+        for lv in spec["levels"]:
+            for f in lv["decls"]:
+                n_decl[f["name"]] = n_decl.get(f["name"], 0) + 1
+        ctx.hist("hierarchy", f"depth={len(spec['levels'])} redeclared={sum(1 for v in n_decl.values() if v > 1)} "
+                              f"config_in={'K' if spec['levels'][-1]['config'] is not None else 'ancestor'}")
+        ctx.hist("non_init_members", f"init=False:{sum(1 for lv in spec['levels'] for f in lv['decls'] if not f['init'])} "
+                                     f"ClassVar:{len(spec['classvar'])}")
+        nullable = nullable_class(spec)
+        ctx.hist("values", "ints and None" if nullable else "ints")
         coq_defs.append(f"Definition c{ci} : cls := {c_spec(spec)}.")
+        dfl = c_defaults(spec)
+        dicts = []
         for ks in subsets(keys, rng, sub_max):
-            d = make_dict(ks, keys, rng)
+            dicts.append(make_dict(ks, keys, rng))
+            if nullable and ks:
+                dicts.append(make_dict(ks, keys, rng, p_none=0.4))
+        dicts += boundary_dicts(spec)
+        for d in dicts:
+            ks = list(d)
             exp = o_keymodel(spec, d)
             obs_all = []
             for ename, call in ents:
                 via_base = "Base" in ename
+                dd = d
                 if via_base:
                     if spec["discr"][1] not in d:
                         continue                      # MissingDiscriminatorError: not a key-resolution case
+                    # the tag key is accepted and never read: same outcome as K's own entry point on d
                     dd = dict(d)
                     dd[spec["discr"][1]] = TAG
-                    obs = observe(spec, call, dd)
-                    # the tag key is accepted and never read: same outcome as K's own entry point on d
-                    ctx.count((ci, tuple(map(repr, ks)), ename))
-                    ctx.hist("outcome", obs[0] + " (via Base)")
-                    if obs != exp:
-                        n_mismatch_oracle += 1
-                        ctx.fail(f"{ename}({dd!r}) -> {obs!r}, KEYMODEL says {exp!r}",
-                                 replay_of(spec, src, ename, dd, obs, exp),
-                                 {"kind": "key-resolution", "observed": obs[0], "expected": exp[0]})
-                    continue
-                obs = observe(spec, call, d)
-                obs_all.append(obs)
-                ctx.count((ci, tuple(map(repr, ks)), ename))
-                ctx.hist("outcome", obs[0])
+                obs = observe(spec, call, dd)
+                ctx.count((ci, repr(sorted(d.items(), key=repr)), ename))
+                ctx.hist("outcome", obs[0] + (" (via Base)" if via_base else ""))
+                if not via_base:
+                    obs_all.append(obs)
                 if obs != exp:
                     n_mismatch_oracle += 1
-                    sig = {"kind": "key-resolution", "observed": obs[0], "expected": exp[0]}
-                    ctx.fail(f"{ename}({d!r}) -> {obs!r}, KEYMODEL says {exp!r}",
-                             replay_of(spec, src, ename, d, obs, exp), sig)
+                    ctx.fail(f"{ename}({dd!r}) -> {obs!r}, KEYMODEL says {exp!r}",
+                             replay_of(spec, src, ename, dd, obs, exp),
+                             {"kind": "key-resolution", "observed": obs[0], "expected": exp[0]})
             # all entry points agree? (if not, the oracle has already flagged at least one of them)
             obs0 = obs_all[0]
-            coq_cases.append((ci, coq_defs[-1], f"(c{ci}, {c_dict(d)}, {c_outcome(obs0)}, true)"))
+            coq_cases.append((ci, coq_defs[-1], f"(c{ci}, {dfl}, {c_dict(d)}, {c_obs(obs0)})"))
             cases.append((spec, src, ents[0][0], d, obs0))
-            if len(ctx.coverage["samples"]) < 6 and len(ks) >= 2 and rng.random() < 0.02:
+            if len(ctx.coverage["samples"]) < 6 and len(ks) >= 2 and rng.random() < 0.01:
                 ctx.sample({"class": src, "input": repr(d), "observed": repr(obs0)})
         drop_module(mod)
 
     # ---- correspondence: Coq models vs the real implementation, same cases
-    ok_impl = "fun c => match c with (cl, d, o, _) => res_outcome_eqb (impl_from_dict cl d) o end"
-    ok_ref = "fun c => match c with (cl, d, o, _) => outcome_eqb (keymodel cl d) o end"
-    ok_both = ("fun c => match c with (cl, d, o, _) => "
-               "res_outcome_eqb (impl_from_dict cl d) o && outcome_eqb (keymodel cl d) o end")
+    ok_impl = ("fun c => match c with (cl, dfl, d, o) => match impl_from_dict cl d with "
+               "Ok r => observation_eqb (observe dfl r) o | Raise _ => false end end")
+    ok_ref = "fun c => match c with (cl, dfl, d, o) => observation_eqb (observe dfl (keymodel cl d)) o end"
+    ok_both = ("fun c => match c with (cl, dfl, d, o) => match impl_from_dict cl d with "
+               "Ok r => observation_eqb (observe dfl r) o | Raise _ => false end "
+               "&& observation_eqb (observe dfl (keymodel cl d)) o end")
     IMPL = ("KeyModel KeyImpl PyK_alias", "From VerifGen Require Import K4.", ["theories/KeyImpl.vo"])
     REF = ("KeyModel", "", ["theories/KeyModel.vo"])
 
@@ -709,13 +856,7 @@ def replay(rep: dict) -> int:
             print(" -", u["name"], ":", u["detail"][:400])
         return 0
     spec = rep["spec"]
-    for f in spec["fields"]:
-        if f["ann"] is not None:
-            f["ann"] = [tuple(a) for a in f["ann"]]
-    if spec["discr"] is not None:
-        spec["discr"] = tuple(spec["discr"])
-    spec.setdefault("noninit", [])
-    spec.setdefault("classvar", [])
+    norm_spec(spec)
     try:
         mod = build_class(rep["source"])
     except Exception as e:
